@@ -271,6 +271,24 @@ def check_c08(prog, rep, tier, cfg):
                 ok &= len(fls) == 2 and any(of.can_reach_avoiding(f.bb, {bb}, set()) and not of.can_reach_avoiding(bb, {f.bb}, set()) for f in fls)
         rep.check(ok, R, "line-start-spaces-zeroed-after-wrapping", "OptimisingLineFormatter::format no longer zeroes spaces_before of every token with newlines_before > 0 after the first wrapping pass",
                   instance={"loop": "0..formatted_tokens.len()", "guard": "newlines_before > 0", "store": "spaces_before = 0"})
+    # the first token of the file never keeps leading spaces: unconditional `spaces_before = 0` for index 0
+    tsf = prog.body("<pasfmt_core::rules::token_spacing::TokenSpacing as pasfmt_core::traits::LogicalLineFileFormatter>::format")
+    if rep.check(tsf is not None, R, "anchor:TokenSpacing::format", "TokenSpacing::format not found"):
+        from panic import dominating_conditions
+        st0 = []
+        for a in prog.field_accesses(FD, "spaces_before", within={tsf.npath}):
+            if a[3].startswith("write") and a[4]["rv"]["k"] == "use" and a[4]["rv"]["op"].get("int") == 0:
+                st0.append(a)
+        ok = len(st0) == 1
+        if ok:
+            bb = st0[0][1]
+            facts = [(f[0], f[2]) for f in dominating_variant_facts(prog, tsf, bb) if f[1] == "is" and not (f[0].startswith("next(") and f[2] == ("None",))]
+            conds = dominating_conditions(tsf, bb)
+            ok = facts == [("get_formatting_data_mut(arg2,0)", ("Some",))] and not conds and not any(bb in L for L in tsf.loops().values())
+            # and it is the last thing the function does: every path to return passes it or its None edge
+        rep.check(ok, R, "first-token-spaces-zeroed-unconditionally", "TokenSpacing::format no longer zeroes the spaces before the first token of the file unconditionally (guards: %s)"
+                  % ([(f[0], f[2]) for f in dominating_variant_facts(prog, tsf, st0[0][1]) if f[1] == "is"] if st0 else "store missing"),
+                  instance={"store": "get_formatting_data_mut(0).spaces_before = 0", "guard": "Some only"})
     # ---------------------------------------------------------------- C08.d end-of-file rule
     R = "C08.d"
     ef = prog.body("<pasfmt_core::rules::eof_newline::EofNewline as pasfmt_core::traits::LogicalLineFormatter>::format")
